@@ -458,6 +458,14 @@ class MBXMLDocument:
                 )
                 attributes_to_set: List[MBXMLToken] = list()
 
+                if (
+                    valid_candidate
+                    and isinstance(name, str)
+                    and not cls.can_carry(tokendef_setting, value)
+                ):
+                    # several variants share one name (result 0x37/0x38/0x39, request-hor-acc ...), take the one that holds the value
+                    valid_candidate = False
+
                 if valid_candidate:
                     # verify found token has required attributes
                     for attr_key, attr_val in attributes.items():
@@ -488,6 +496,26 @@ class MBXMLDocument:
         raise ModuleNotFoundError(
             f"MBXMLToken (get_token) {name} with attributes {attributes.keys()} not found"
         )
+
+    @staticmethod
+    def can_carry(tokendef: MBXMLToken, value: Optional[MBXMLToken_Value]) -> bool:
+        """
+        Whether the token variant is able to hold the value (lookup by name: variants of one name differ in what they carry)
+        """
+        if value is None:
+            return True
+        if tokendef.token_type == GlobalToken.OPAQUE_I and isinstance(
+            value, (bytes, bytearray)
+        ):
+            if tokendef.length == 0:
+                # content-less variant
+                return len(value) == 0
+            if tokendef.length:
+                return len(value) == tokendef.length
+        if tokendef.token_type in (GlobalToken.UINTVAR, GlobalToken.UINT8):
+            # integral values only
+            return not isinstance(value, float) or value.is_integer()
+        return True
 
     @classmethod
     def get_attribute(
